@@ -1,5 +1,6 @@
 import AvroModel.Lemmas.NoPanic
 import AvroModel.Lemmas.Terminates
+import AvroModel.Lemmas.WriteStable
 import AvroModel.Props.C18
 /-!
 # C06 — Malformed input yields errors, never panics, hangs or runaway allocation
@@ -10,6 +11,10 @@ What is proved here, for every byte string (no validity hypothesis):
   guard makes every slice expression safe (`next_total`) and a union selector is range-checked
   before it indexes the branch list;
 * timestamp parsing never panics (`parse_time_total`, from C18).
+* the model of `Read` and `Skip` terminates (`read_terminates`, `skip_terminates`; with
+  `read_total`: `read_result`, `skip_result` — "a result or an error"), and outcomes are monotone in
+  the step budget (`read_fuel_mono`); the other budget-indexed model functions (`write`, `toAvro`,
+  `ofAvro`) have explicit sufficient budgets (`write_budget`, `toAvro_budget`, `ofAvro_budget`).
 The container reader (`C07.no_panic`), the schema parser (total by construction: C14) complete the list.
 Runaway allocation / non-termination from declared array block counts is the recorded, unrepaired
 finding D14 (`arrayCodec.resizeSlice`); it is exercised by the harness and reported as KNOWN-FINDING.
@@ -158,5 +163,40 @@ example (bs : Bytes) : ∃ n, ∀ m, n ≤ m →
     read envVarint m (.array .null false) bs (.slice []) = read envVarint n (.array .null false) bs (.slice []) ∧
     read envVarint n (.array .null false) bs (.slice []) ≠ .fuel :=
   read_terminates envVarint envVarint_sane _ bs _
+
+/-! ### The other budget-indexed model functions
+
+`write` (result `Option Bytes`), `toAvro` and `ofAvro` (`Sem.lean`) use the same device; their
+out-of-budget value (`none`, `.illtyped`) is also their "ill-typed" value. For them the budget is
+harmless in this form: results are monotone in the budget, and from an explicit budget — the nesting
+of the codec plus the size of the value, `Codec.sz c + GoVal.sz g + 1` — on, the result is final. -/
+
+/-- a successful `write` is the result for every larger budget -/
+theorem write_fuel_mono {n m : Nat} (h : n ≤ m) (c : Codec) (g : GoVal) (b : Bytes)
+    (hw : write env n c g = some b) : write env m c g = some b :=
+  write_mono env h hw
+
+/-- from budget `c.sz + g.sz + 1` on `write` no longer changes: a `none` there is ill-typedness
+(or the deliberate panic of `unionCodec.Write`), not the budget -/
+theorem write_budget (c : Codec) (g : GoVal) (m : Nat) (h : c.sz + g.sz + 1 ≤ m) :
+    write env m c g = write env (c.sz + g.sz + 1) c g :=
+  write_stable env c g m h
+
+theorem toAvro_budget (nullp : Codec → GoVal → Bool) (c : Codec) (g : GoVal) (m : Nat) (h : c.sz + g.sz + 1 ≤ m) :
+    toAvro env nullp m c g = toAvro env nullp (c.sz + g.sz + 1) c g :=
+  toAvro_stable env nullp c g m h
+
+theorem ofAvro_budget (c : Codec) (v : Value) (dst : GoVal) (m : Nat) (h : c.sz + v.sz + 1 ≤ m) :
+    ofAvro env m c v dst = ofAvro env (c.sz + v.sz + 1) c v dst :=
+  ofAvro_stable env c v dst m h
+
+/-- instance: a struct with a slice of two ints under a record/array codec has measure 3 + 5, so
+budget 9 is final -/
+example (m : Nat) (h : 9 ≤ m) :
+    write env m (.record [] [.array (.int 64 false) false] [some 0]) (.struct [.slice [.int 1, .int 2]]) =
+    write env 9 (.record [] [.array (.int 64 false) false] [some 0]) (.struct [.slice [.int 1, .int 2]]) := by
+  have := write_budget env (.record [] [.array (.int 64 false) false] [some 0]) (.struct [.slice [.int 1, .int 2]]) m
+  simp only [Codec.sz, Codec.szList, GoVal.sz, GoVal.szList, Nat.zero_add, Nat.add_zero, Nat.reduceAdd] at this
+  exact this h
 
 end Avro.C06
